@@ -2,6 +2,13 @@ package main
 
 func init() {
 	property(&Property{
+		ID:    "C06",
+		Rules: []string{"ENCODER-CLOSE", "CARRY-OVER", "FRAME-AGREE"},
+		Decides: "Decides three.",
+		NotDecided: "most.",
+		Assumptions: commonAssumptions,
+	})
+	property(&Property{
 		ID:    "C14",
 		Rules: []string{"MD-GATE-OUT", "MD-GATE-IN", "MD-RESERVED-TABLE", "BIN-PADDING", "IDENT-BRANCH", "TRAILER-PHASE", "STS-ROUTING"},
 		Decides: "Decides md.",
@@ -66,7 +73,7 @@ func init() {
 	})
 	property(&Property{
 		ID:    "C05",
-		Rules: []string{"STATUS-TABLE", "TABLE-GUARD", "TWIRP-TABLE"},
+		Rules: []string{"STATUS-TABLE", "TABLE-GUARD", "TWIRP-TABLE", "ENCODER-CLOSE", "TAIL-FLUSH", "ERR-SAME-STATUS", "GRPC-TRAILER-VALUES"},
 		Decides: "Decides the table-shaped and pairing-shaped parts of status fidelity.",
 		NotDecided: "per-character output of encodeGrpcMessage, close-frame payload limits, equality of details.",
 		Assumptions: commonAssumptions,
